@@ -627,6 +627,9 @@ func mon07Workload(args []string) int {
 }
 
 func keyOf(addr *types.Address) *harness.Key {
+	if addr == nil {
+		return nil
+	}
 	cands := []*harness.Key{harness.Pauper(), harness.DetKey("empty-account")}
 	for i := 0; i < 4; i++ {
 		cands = append(cands, harness.User(i), harness.AdminKey(i))
